@@ -134,3 +134,14 @@ def same_pure(a, b):
     if a[0] == b[0] == 'refl':
         return a[1] == b[1]
     return same_value(a, b)
+
+
+def feasible_paths(body, prog=None, **kw):
+    """(path, state) for every statically feasible acyclic entry->exit path (paths that contradict a
+    discriminant/constant known on the path itself are pruned)"""
+    out = []
+    for path in enum_paths(body, **kw):
+        st = run_path(body, path, prog)
+        if st.feasible:
+            out.append((path, st))
+    return out
